@@ -364,6 +364,9 @@ theorem mentions_nil : ∀ t : Ty, t.mentions [] = false := by
   case array =>
     intro t len ih
     cases len <;> simp [Ty.mentions, ih]
+  case cblock =>
+    intro e
+    cases e <;> simp [GArg.mentions]
   all_goals (intros; simp_all [Ty.mentions, Ty.mentionsO, Ty.mentionsL, Seg.mentions, Seg.mentionsL, GArg.mentions,
     GArg.mentionsL, headIn_nil])
 
